@@ -18,8 +18,8 @@ use std::rc::Rc;
 use crate::ast::rewrite::Rewriter;
 use crate::ast::walk::Walker;
 use crate::ast::{
-    BinaryExprType, BinaryOpDef, ConstraintArm, Expression, FormatArgs, FuncOpDef, Position,
-    PositionedItem, SelectDef, Shape, Statement, TemplatePart, Token, TokenType, Value,
+    BinaryExprType, ConstraintArm, Expression, FormatArgs, FuncOpDef, Position, Shape, Statement,
+    TemplatePart, Token, Value,
 };
 use crate::build::format::{ExpressionTemplate, SimpleTemplate, TemplateParser};
 use crate::build::opcode::Primitive;
@@ -250,32 +250,13 @@ impl AST {
                         // the Index operation contract.
                         match *def.left.clone() {
                             Expression::Simple(Value::Symbol(name)) => {
-                                // We really just want an expression that turns a symbol
-                                // into a name if the subject is a tuple and doesn't
-                                // otherwise
-                                let new_expr = Expression::Select(SelectDef {
-                                    val: Box::new(Expression::Binary(BinaryOpDef {
-                                        kind: BinaryExprType::IS,
-                                        right: Box::new(Expression::Simple(Value::Str(
-                                            PositionedItem::new(
-                                                "tuple".into(),
-                                                def.left.pos().clone(),
-                                            ),
-                                        ))),
-                                        left: def.right.clone(),
-                                        pos: def.left.pos().clone(),
-                                    })),
-                                    default: Some(Box::new(Expression::Simple(Value::Symbol(
-                                        name.clone(),
-                                    )))),
-                                    tuple: vec![(
-                                        Token::new("true", TokenType::BAREWORD, def.right.pos()),
-                                        None,
-                                        Expression::Simple(Value::Str(name)),
-                                    )],
-                                    pos: def.left.pos().clone(),
-                                });
-                                Self::translate_expr(new_expr, ops, root);
+                                // A bareword is a field name if the subject is
+                                // a tuple and a binding otherwise. Which one is
+                                // decided when the subject is known: spelling
+                                // that out as a select here translated, and
+                                // evaluated, the right side a second time, at
+                                // every level of nesting.
+                                ops.push(Op::Sym(name.val), name.pos);
                             }
                             expr => {
                                 Self::translate_expr(expr, ops, root);
